@@ -2,7 +2,7 @@
 """Generates MANIFEST.json from the table below (kept next to the checks so both stay in step)."""
 import json, subprocess
 
-HOOK_COMMITS = ["e053b92", "db39081", "909497b"]
+HOOK_COMMITS = ["e053b92", "db39081", "909497b", "a3ef4cc"]
 
 NOTE_COMMON = ("trusted base: tokio current-thread scheduler + paused clock, the simnet link, the refproto reference codec/model; "
                "interleavings explored at task-poll granularity on one thread; a clean batch is evidence, not proof")
@@ -12,6 +12,8 @@ CHECKS = {
             "deterministic simulation + fault injection; reference-model oracle (vector of completed sends)"),
     "C02": ("exploration", "§4 C02", "same runs as C01/C03 plus late-credit links; oracle = independent wire monitor keeping a credit ledger per port direction, checked at every frame handed to the sink",
             "deterministic simulation; wire-trace invariant monitor (credit ledger, chunk size)"),
+    "C04": ("exploration", "§4 C04", "base channels between two real endpoints; items straddling max_data_size (streamed through lock-step helper threads), chunk_size and max_item_size, items failing to (de)serialize, cancelled sends, link cut sub-batch; oracle = receive events must be explainable by the per-sender attempt log (deliver / receiver-must-fail / sender-failed), complete at quiescence",
+            "deterministic simulation + fault injection; sequence-matching oracle against the sender's attempt log"),
     "C03": ("exploration", "§4 C03", "same runs as C01 plus stalled-receiver runs; oracle = no send/connect pending at quiescence while the receiver consumed everything, credit-conservation probe, zero-cost frame flood detector",
             "deterministic simulation; quiescence-based bounded liveness oracle + credit conservation probe"),
 }
@@ -44,7 +46,7 @@ def main():
             "enable": "RUSTFLAGS='--cfg remoc_verif --cfg tokio_unstable' via /verif/sim/.cargo/config.toml; hooks are inert until remoc::exec::verif::install is called by the harness",
             "baseline_off_cmd": "cd /repo && cargo nextest run --workspace --no-fail-fast --test-threads 8 --offline || cargo test --workspace --no-fail-fast --offline",
             "source_commits": HOOK_COMMITS,
-            "add_only": True,
+            "add_only": False,
         },
         "engines": [{
             "name": "sim",
